@@ -535,12 +535,15 @@ pub fn run(rng: &mut Rng, out: &mut Out, thorough: bool) {
     let max_small = if thorough { 10 } else { 9 };
     for len in 0..=max_small {
         for pat in 0..(1u32 << len) {
-            if !thorough && len == 9 && pat % 4 != (len as u32 % 4) {
+            if !thorough && len == 9 && pat % 8 != 1 {
+                continue;
+            }
+            if !thorough && len == 8 && pat % 2 != 1 {
                 continue;
             }
             let bits: Vec<bool> = (0..len).map(|i| (pat >> i) & 1 == 1).collect();
             emit(out, "exhaustive", &ops_of_bits(&bits, false), small, rng);
-            if len <= 8 || thorough {
+            if len <= 7 || thorough {
                 emit(out, "exhaustive_bits", &ops_of_bits(&bits, true), light, rng);
             }
         }
